@@ -20,6 +20,7 @@ var trustedIntrinsics = map[string]string{
 	"math/bits.OnesCount":                "population count of a 64-bit word",
 	"bytes.NewBuffer":                    "returns a reader positioned at the start of the given bytes",
 	"encoding/binary.Read":               "fills the fixed-size struct field by field, big-endian, from the reader's bytes; error iff fewer bytes than the struct size; layout derived from go/types",
+	"unicode/utf8.DecodeRuneInString":    "first rune and its width per the specification functions utf8_r / utf8_w (smt block utf8: RFC 3629 decoding as implemented by unicode/utf8; invalid or short sequences give U+FFFD width 1, the empty string width 0); range over a string uses the same functions",
 	"sort.Search":                        "returns r in [0,n] with f(r-1)==false (r>0) and f(r)==true (r<n), for any f (binary-search invariant)",
 }
 
@@ -56,6 +57,15 @@ func (fx *FX) intrinsic(fr *frame, st *State, name string, callee *ssa.Function,
 		return fx.binaryRead(fr, st, callee, args, pos), true
 	case "sort.Search":
 		return fx.sortSearch(fr, st, callee, args, pos), true
+	case "unicode/utf8.DecodeRuneInString":
+		if !fx.hasUTF8() {
+			return nil, false
+		}
+		s := args[0].T
+		arr, off := app("st_arr", SBytes, s), app("st_off", SBV64, s)
+		r := withSign(fx.define("dec_r", app("utf8_r", SBV(32), arr, off, strLen(s))), true)
+		wd := withSign(fx.define("dec_w", app("utf8_w", SBV64, arr, off, strLen(s))), true)
+		return []Val{{T: r, Typ: types.Typ[types.Rune]}, {T: wd, Typ: types.Typ[types.Int]}}, true
 	}
 	_ = w
 	return nil, false
